@@ -517,6 +517,7 @@ func main() {
 	writeFraming(&b, root, files, parsed)
 	writeDecoders(&b, root, files, parsed)
 	writeService(&b, root, files, parsed)
+	writeLocks(&b, root, files, parsed)
 	// side file for the harness: the literal texts that status-deciding code compares error texts with
 	if js, err := json.Marshal(map[string]interface{}{"phrases": phrases, "server_read_timeout_ms": genServerReadTimeoutMs, "server_read_header_timeout_ms": genServerReadHeaderTimeoutMs,
 		"content_encodings": genContentEncodings}); err == nil {
